@@ -280,3 +280,7 @@ def _datasets(job):
     finally:
         rp.close()
     return out
+
+
+def replay(body):
+    return SJ.replay(body)
